@@ -142,6 +142,26 @@ def kjoin(a: str, b: str) -> str:
     return a if KIND_ORDER[a] >= KIND_ORDER[b] else b
 
 
+def _all_py(v: Any) -> bool:
+    if isinstance(v, Py):
+        return True
+    if isinstance(v, Tup):
+        return all(_all_py(x) for x in v.items)
+    if isinstance(v, UList):
+        return _all_py(v.elem)
+    return False
+
+
+def _has_unknown(v: Any) -> bool:
+    if isinstance(v, Unknown):
+        return True
+    if isinstance(v, Tup):
+        return any(_has_unknown(x) for x in v.items)
+    if isinstance(v, (UList, TreeOf)):
+        return _has_unknown(v.elem)
+    return False
+
+
 def join(a: Any, b: Any) -> Any:
     if a is None:
         return b
@@ -171,6 +191,10 @@ def join(a: Any, b: Any) -> Any:
         return Par()
     if isinstance(a, Py) and isinstance(b, Py):
         return Py()
+    # a static Python value on one branch, a tuple / list of static Python values on the other: a static Python value
+    for x, y in ((a, b), (b, a)):
+        if isinstance(x, Py) and isinstance(y, (UList, Tup)) and _all_py(y):
+            return Py()
     if isinstance(a, Zero) and isinstance(b, Py) or isinstance(b, Zero) and isinstance(a, Py):
         return Par()
     if isinstance(a, Op) and isinstance(b, Op):
@@ -1158,7 +1182,7 @@ class KindInterp:
             lin = isinstance(base, Lin)
             if name in ('reshape', 'ravel', 'flatten', 'transpose', 'swapaxes', 'squeeze', 'view'):
                 if not all(self.is_static(v) for v in vals):
-                    self.taints.append(Taint(e, f'.{name} with a non-static shape argument'))
+                    self.taints.append(Taint(e, f'.{name} with a non-static shape argument', definite=not any(_has_unknown(v) for v in vals)))
                 return Lin(perm_kind(base.k)) if lin else base
             if name == 'astype':
                 return base
